@@ -639,15 +639,18 @@ func (r *runner) judge(si int, a *applied, res readResult, want []byte, tampered
 		// KF-C17-3: end of part = "no shard has another frame": every shard is missing, unusable at open
 		// (bad shard header) or ends at the same frame edge -> clean EOF
 		if nF > P && res.err == nil && r.env.Known("c17.commonTruncationCleanEOF") {
-			onlyEnd := true
+			// the decoder that trusts consistent shards ends cleanly only through that rule; shards
+			// with other faults were merely dropped earlier. Require a shard that ends early / is
+			// absent or unusable, and a result that is a proper prefix ending on a stripe boundary.
+			endsEarly := false
 			for _, ks := range a.kinds {
 				for _, k := range ks {
-					if k != "missing" && !strings.HasPrefix(k, "trunc:") && k != "flip:shardhdr" && k != "othershard" {
-						onlyEnd = false
+					if k == "missing" || strings.HasPrefix(k, "trunc:") || k == "flip:shardhdr" || k == "othershard" {
+						endsEarly = true
 					}
 				}
 			}
-			if onlyEnd && len(res.data) < len(want) && bytes.HasPrefix(want, res.data) {
+			if endsEarly && len(res.data) < len(want) && bytes.HasPrefix(want, res.data) && len(res.data)%(r.c.D*stripe) == 0 {
 				o.KnownHits = append(o.KnownHits, "KF-C17-3")
 				o.Class(phase + ":known-common-truncation")
 				return true, true
